@@ -101,7 +101,20 @@ def run_collect(g, als, high_memory, workdir):
     dp.collect_reads_in_parallel = fake_collect
     dp.BasicReadAssignmentLoader = FakeQuickLoader
     unmapped = UNMAPPED.get("per_file") or [0]
-    dp.pysam = Obj(AlignmentFile=lambda path, *a, **k: Obj(unmapped=unmapped[int(path[1:-4])], close=lambda: None))
+    class FakeAlignmentFile:
+        """pysam.AlignmentFile as far as collect_reads uses it: .unmapped, close(), context manager"""
+        def __init__(self, path, *a, **k):
+            self.unmapped = unmapped[int(path[1:-4])]
+
+        def close(self):
+            pass
+
+        def __enter__(self):
+            return self
+
+        def __exit__(self, *a):
+            return False
+    dp.pysam = Obj(AlignmentFile=FakeAlignmentFile)
     dp.open = fake_open
     try:
         this = dp.DatasetProcessor.__new__(dp.DatasetProcessor)
